@@ -60,6 +60,21 @@ Check mv_sync_crash_safe :
               (mv_open es f = Some (nlen xs, xs) \/ mv_open es f = Some (nlen xs', xs')).
 Print Assumptions mv_sync_crash_safe.
 
+(* the atomic-replace protocol shared by MmapVec::sync, PlainBlobStore::put and SuffixArrayDictionary::save_to_file
+   (temporary sibling, fsync, rename): in every crash image every file other than the temporary one is as before,
+   except that the target may hold the complete new content - so a directory store shows the old record set or
+   the old set plus the complete new record, never a torn one *)
+Theorem replace_crash_safe :
+  forall d path tmp img d',
+    tmp <> path -> crash d (mv_sync_ops path tmp img) d' ->
+    forall q, q <> tmp -> d' q = d q \/ (q = path /\ d' q = Some img).
+Proof. exact replace_crash_safe_proof. Qed.
+Check replace_crash_safe :
+  forall d path tmp img d',
+    tmp <> path -> crash d (mv_sync_ops path tmp img) d' ->
+    forall q, q <> tmp -> d' q = d q \/ (q = path /\ d' q = Some img).
+Print Assumptions replace_crash_safe.
+
 (* the in-place set_len of resize_to_capacity / shrink_to_fit: refused, or the synced content *)
 Theorem mv_set_len_safe :
   forall es xs cap tail n, mv_wf es xs cap tail ->
